@@ -17,6 +17,9 @@ def run(ctx: Ctx) -> None:
     # the Lie bracket is built from Jacobians: precision of float64 fields and spacing scaling in every derivative mode (shared with C12)
     with ctx.only("T5.dtype"):
         t5_derivs.run_dtype(ctx)
+    with ctx.only("T5.jacobian"):  # the bracket J_v u - J_u v on linear fields, for every documented form of the spacing argument (shared with C12)
+        t5_derivs.run_derivatives(ctx)
+    ctx.floor("T5.jacobian", 6)
     t5_derivs.run_gaussian_spacing(ctx)
     ctx.floor("T5.dtype", 8)
     ctx.floor("T5.gaussian-spacing", 2)
@@ -42,6 +45,7 @@ def mutants(prog):
         ("logv: composes with the running field instead of the given flow", Fm, "logv", "u = compose_flows(flow, u, align_corners=align_corners)", "u = compose_flows(v, u, align_corners=align_corners)", "T4.logv-iteration"),
         ("finite differences: float32 step size", "deepali.core.image", "spatial_derivatives", "if not data.is_floating_point():\n        data = data.float()", "data = data.float()", "T5.dtype"),
         ("gaussian derivatives: spacing of the last axis", "deepali.core.image", "spatial_derivatives", "denom = spacing.narrow(1, sdim, 1)", "denom = spacing.narrow(1, D - 1, 1)", "T5.gaussian-spacing"),
+        ("jacobian: a spacing sequence is read in tensor-axis order", Fm, "jacobian_dict", "kwargs = dict(mode=mode, sigma=sigma, spacing=spacing, stride=stride)", "kwargs = dict(mode=mode, sigma=sigma, spacing=tuple(reversed(spacing)) if isinstance(spacing, (tuple, list)) else spacing, stride=stride)", "T5.jacobian"),
     ]
     for name, mod, fn, old, new, expect in specs:
         ov = source_sub(prog, mod, fn, old, new)
